@@ -313,9 +313,11 @@ func c06AckValidation(c *Ctx) {
 	// the yield closure: AcksPacket true edge stores a PROTOCOL_VIOLATION error and returns false
 	acks := c.obj("internal/wire", "AckFrame", "AcksPacket")
 	var yield *ssa.Function
-	for _, a := range d.AnonFuncs {
-		if countInstr(a, CallsTo(acks)) > 0 {
-			yield = a
+	for _, g := range helperRegion(d) {
+		for _, a := range g.AnonFuncs {
+			if countInstr(a, CallsTo(acks)) > 0 {
+				yield = a
+			}
 		}
 	}
 	c.Check(yield != nil, R, "site:AcksPacket in skipped loop", c.P.Pos(d.Pos()), "the loop body tests ack.AcksPacket(p)")
